@@ -1,3 +1,5 @@
 #!/bin/bash
-# extra offline set-up steps (python-facing build for C18 is done lazily by its check)
+# extra offline set-up: pre-build the two cfg-off builds of C18 (Python extension + Rust reference driver)
+# so that the first quick run is incremental. A failure here is not fatal: the check reports it itself.
+C18_BUILD_ONLY=1 /verif/pybind/run_c18.sh quick || true
 exit 0
